@@ -5234,27 +5234,34 @@ func (a *Agent) TaskDispatch(RequestID uint32, CommandID uint32, Parser *parser.
 									if teamserver.AgentExist(AgentHdr.AgentID) {
 
 										DemonInfo = teamserver.AgentInstance(AgentHdr.AgentID)
-										Message["MiscType"] = "reconnect"
-										Message["MiscData"] = fmt.Sprintf("%v;%x", a.NameID, AgentHdr.AgentID)
 
-										if DemonInfo.Pivots.Parent != nil {
-											for i := range DemonInfo.Pivots.Parent.Pivots.Links {
-												if DemonInfo.Pivots.Parent.Pivots.Links[i].NameID == fmt.Sprintf("%08x", AgentHdr.AgentID) {
-													DemonInfo.Pivots.Parent.Pivots.Links = append(DemonInfo.Pivots.Parent.Pivots.Links[:i], DemonInfo.Pivots.Parent.Pivots.Links[i+1:]...)
-													break
-												}
+										// an agent cannot be linked below itself or below one of its own descendants
+										for Ancestor := a; Ancestor != nil; Ancestor = Ancestor.Pivots.Parent {
+											if Ancestor == DemonInfo {
+												DemonInfo = nil
+												break
 											}
 										}
 
-										DemonInfo.Active = true
-										DemonInfo.Reason = ""
-										DemonInfo.Pivots.Parent = a
+										if DemonInfo != nil {
+											Message["MiscType"] = "reconnect"
+											Message["MiscData"] = fmt.Sprintf("%v;%x", a.NameID, AgentHdr.AgentID)
 
-										a.Pivots.Links = append(a.Pivots.Links, DemonInfo)
-										teamserver.LinkAdd(a, DemonInfo)
+											// detach from the previous parent (link list and persisted link)
+											if DemonInfo.Pivots.Parent != nil {
+												teamserver.LinkRemove(DemonInfo.Pivots.Parent, DemonInfo, true)
+											}
 
-										teamserver.AgentUpdate(DemonInfo)
-										teamserver.AgentUpdate(a)
+											DemonInfo.Active = true
+											DemonInfo.Reason = ""
+											DemonInfo.Pivots.Parent = a
+
+											a.Pivots.Links = append(a.Pivots.Links, DemonInfo)
+											teamserver.LinkAdd(a, DemonInfo)
+
+											teamserver.AgentUpdate(DemonInfo)
+											teamserver.AgentUpdate(a)
+										}
 
 									} else {
 										// if the agent doesn't exist then we assume that it's a register request from a new agent
